@@ -240,7 +240,7 @@ class ManagementEnforcer(InternalEnforcer):
             rule_added = self._add_policy("g", ptype, list(params))
             rules.append(list(params))
 
-        if self.auto_build_role_links:
+        if self.auto_build_role_links and rule_added:
             self.model.build_incremental_role_links(self.rm_map[ptype], PolicyOp.Policy_add, "g", ptype, rules)
             if ptype in self.cond_rm_map:
                 self.model.build_incremental_conditional_role_links(
@@ -254,7 +254,7 @@ class ManagementEnforcer(InternalEnforcer):
         If the rule already exists, the function returns false for the corresponding policy rule and the rule will not be added.
         Otherwise the function returns true for the corresponding policy rule by adding the new rule."""
         rules_added = self._add_policies("g", ptype, rules)
-        if self.auto_build_role_links:
+        if self.auto_build_role_links and rules_added:
             self.model.build_incremental_role_links(self.rm_map[ptype], PolicyOp.Policy_add, "g", ptype, rules)
 
         return rules_added
